@@ -35,7 +35,7 @@ m = {
     "setup_cmd": f"cd /verif/govc && {ENV} go build -o /verif/bin/govc .",
     "hooks": {
         "guard": "verif",
-        "enable": "packages are loaded with -tags verif; the guarded files are the comment-only verif_contracts.go files holding //@ contracts and two files verif_history.go (handler/oauth2, handler/rfc8628) holding ghost drivers: functions that are never called and only exist so that an arbitrary history of operations is a loop whose invariant the verifier checks against the handler contracts",
+        "enable": "packages are loaded with -tags verif; the guarded files are the comment-only verif_contracts.go files holding //@ contracts and five files verif_history.go (package fosite, handler/oauth2, handler/rfc8628, handler/par, handler/rfc7523) holding ghost drivers: functions that are never called and only exist so that an arbitrary history of operations is a loop whose invariant the verifier checks against the handler contracts",
         "baseline_off_cmd": "for m in $(cat /w/out/gomods.txt); do MF=$(cd /repo/$m && . /w/out/goenv.sh && gomodflag); (cd /repo/$m && go test $MF -json -vet=off -count=1 -timeout 25m ./...); done",
         "source_commits": hook_commits,
         "add_only": True,
